@@ -169,6 +169,12 @@ pub fn check(c: &Case, cs: &mut CaseStats) -> Result<(), String> {
         let tola = info.pos * face_perimeter_bound(d, info.r) * 4.;
         let mine: Vec<(&(usize, usize, [i32; 3]), &f64)> = fm.range((i, 0, [i32::MIN; 3])..(i + 1, 0, [i32::MIN; 3])).collect();
         for (key, area) in &mine {
+            // a face shared with an ill-conditioned cell is the known finding 'ill-conditioned'
+            // (same exemption as in C03: both cells of the pair must be well conditioned)
+            if !infos[key.1].as_ref().map_or(true, |x| x.well) {
+                cs.count("faces_skipped_ill_conditioned_neighbour", 1);
+                continue;
+            }
             match rep_faces.get(&(key.1, key.2)) {
                 Some(ra) => {
                     if (*ra - **area).abs() > tola + 1e-11 * area.abs() && area.max(*ra) > thr {
@@ -184,6 +190,9 @@ pub fn check(c: &Case, cs: &mut CaseStats) -> Result<(), String> {
             }
         }
         for ((j, b), ra) in &rep_faces {
+            if !infos[*j].as_ref().map_or(true, |x| x.well) {
+                continue;
+            }
             if !fm.contains_key(&(i, *j, *b)) && *ra > thr + tola {
                 return Err(format!("cell {i}: the replicated tessellation has a face towards {j} in block {:?} (area {:e}) that the periodic tessellation lacks", b, ra));
             }
